@@ -92,9 +92,9 @@ class Instr:
         self._filter = self.PP.PartialParse._filter_rules
         orig_filter = self._filter
 
-        def filt(pp_self, rules):
+        def filt(pp_self, *a, **kw):
             ev.append(("analyse", clock.t, clock.nchecks, -1))
-            return orig_filter(pp_self, rules)
+            return orig_filter(pp_self, *a, **kw)
 
         self.PP.PartialParse._filter_rules = filt
         return self
